@@ -630,6 +630,7 @@ func listLoops(f *ssa.Function) []listLoop {
 func checkC19Enforcement(c *Ctx) {
 	r := c.R
 	const lib = "pkg/station/lib"
+	checkPolicyListWriters(c, "C19.6")
 	// ---- C19.4 every accepted entry is recorded and consulted
 	r.Rule("C19.4", "every parsed list entry is stored in the enforced list; decisions examine every entry; shipped configurations parse", 12)
 	if f := c.fn("C19.4", lib, "RegConfig", "ParseBlocklists"); f != nil {
@@ -996,4 +997,71 @@ func errNames(call *ssa.Call) []string {
 		}
 	}
 	return out
+}
+
+
+// checkPolicyListWriters: the enforced policy lists only ever grow during a parse - every store to one of them is a
+// reset to the empty list, an append of one entry to the same list (directly, through a recording helper, or through
+// a pointer handed to a list-parsing helper), or the take-over of the same-named field of another configuration
+// (OnReload). Anything else - filtering, de-duplication, "compaction", truncation - can drop an entry that the load
+// accepted. Shared by C19.4 and C06.7.
+func checkPolicyListWriters(c *Ctx, rule string) {
+	r := c.R
+	r.Rule(rule, "the enforced policy lists are only reset, appended to entry by entry, or taken over field by field", 4)
+	n := 0
+	for _, f := range c.funcsOfPkgs("pkg/station/lib") {
+		eachInstr(f, func(in ssa.Instruction) {
+			st, ok := in.(*ssa.Store)
+			if !ok {
+				return
+			}
+			o, fld, ok := fieldOwner(st.Addr)
+			if !ok || o != "lib.RegConfig" || !c19Lists[fld] {
+				return
+			}
+			n++
+			ap := pathOf(st.Addr)
+			vp := pathOf(st.Val)
+			okk := false
+			how := ""
+			switch x := stripConv(st.Val).(type) {
+			case *ssa.Slice:
+				// the empty literal []T{}: a slice of a zero-length array
+				if al, isAl := x.X.(*ssa.Alloc); isAl {
+					if p, isP := al.Type().Underlying().(*types.Pointer); isP {
+						if arr, isArr := p.Elem().Underlying().(*types.Array); isArr && arr.Len() == 0 {
+							okk, how = true, "reset to the empty list"
+						}
+					}
+				}
+			case *ssa.Const:
+				okk, how = x.Value == nil, "reset to nil"
+			case *ssa.MakeSlice:
+				if cv, isC := constOf(x.Len); isC && cv.String() == "0" {
+					okk, how = true, "reset to an empty list"
+				}
+			case *ssa.Call:
+				if b, isB := x.Call.Value.(*ssa.Builtin); isB && b.Name() == "append" {
+					// append(<same list>, <one entry>)
+					if len(x.Call.Args) == 2 && pathOf(x.Call.Args[0]) == ap {
+						if els, isVar := varargElems(x.Call.Args[1]); isVar && len(els) == 1 {
+							okk, how = true, "append of one entry to the same list"
+						}
+					}
+				} else if h := x.Call.StaticCallee(); h != nil && isRepoPath(fnPkgPath(h)) && len(x.Call.Args) == 2 && pathOf(x.Call.Args[0]) == ap && alwaysAppends(h) {
+					okk, how = true, "recording helper that always appends"
+				}
+			case *ssa.UnOp:
+				// take-over of the same-named field of another configuration object
+				if o2, fld2, ok2 := fieldOwner(x.X); ok2 && o2 == "lib.RegConfig" && fld2 == fld && pathOf(x.X) != ap {
+					okk, how = true, "taken over from "+firstN(pathOf(x.X), 40)
+				}
+			}
+			r.Check(okk, rule, fnName(f)+": "+fld+" <- "+firstN(vp, 50), st.Pos(), fnName(f), how,
+				"the enforced list "+fld+" is rewritten from "+firstN(vp, 60)+": a step that filters, merges or compacts the list after the entries were parsed can drop an entry of an accepted configuration (a wider subnet listed after a narrower one, a duplicate with another mask), which is then not enforced")
+		})
+	}
+	if n == 0 {
+		r.Unk(rule, "stores to the enforced lists", token.NoPos, "", "none found")
+	}
 }
